@@ -85,6 +85,17 @@ func c06Generate(c *mon.Ctx) {
 		}
 	}
 
+	// small words made by SetUInt64 (and left alone since) multiplied into receivers whose STORED value sits next to
+	// j*2^256/k: the product by the word k lands just above a multiple of 2^256
+	for _, k := range []int64{2, 3, 5, 7, 9, 255, 65537} {
+		fr := gen.FractionStored(n, k)
+		for i := 0; i < len(fr); i += 1 + len(fr)/24 {
+			recv := hx(oracle.FromMont(oracle.Limbs(fr[i]), n))
+			tm := mon.ScalarMove{Via: "setuint64", From: hx(gen.Draw(mvr, n).X), To: hx(big.NewInt(k)), Aux: "1"}
+			c.Structured(func() any { return &c06Case{Op: "mul", S: recv, TMove: &tm, Class: "word-operand-times-fraction-stored"} })
+		}
+	}
+
 	// a soak: the same operation many hundred times in a row in one process (zero and non-zero operands), every result
 	// checked: behaviour tied to a call counter (a health check on every 256th inversion that mistakes Invert(0) = 0 for a fault)
 	c.Structured(func() any { return &c06Case{Op: "soak", S: hx(gen.Draw(mvr, n).X), Class: "soak"} })
